@@ -167,6 +167,8 @@ func runConc(seed uint64, cc *ConcCase, schedule []simrt.Deviation, replay bool,
 		out.Faults["pool-reuse"] += int(w.PoolHits)
 		out.Faults["pool-miss"] += int(w.PoolMisses)
 		out.Faults["spin-forced-yield"] += int(w.SpinYields)
+		out.Faults["task-stalled"] += int(w.Stalls)
+		out.Faults["task-stalled-steps"] += int(w.StallSteps)
 		out.SimTime = w.Now - cfg.ClockOrigin
 	}
 	if strat != nil {
